@@ -129,7 +129,10 @@ fn gen(g: &mut G, thorough: bool) -> Plan {
     };
     let mut head = head_without_len;
     if announce_len {
-        head.extend_from_slice(format!("Content-Length: {}\r\n", body.len()).as_bytes());
+        // (no draw) ... and sometimes announces more than it then sends before closing: the refusal is a refusal
+        // all the same, with the status it bears and what there was of a body
+        let announced = if body.len() % 2 == 1 && body.len() < 9000 { body.len() + 44 } else { body.len() };
+        head.extend_from_slice(format!("Content-Length: {}\r\n", announced).as_bytes());
         g.probe("refusal-announces-content-length");
     }
     head.extend_from_slice(b"\r\n");
@@ -397,7 +400,10 @@ pub fn scenario(g: &mut G, ctx: &RunCtx) -> RunReport {
             Some((u, None)) => format!("{}@", u),
             None => String::new(),
         };
-        format!("{}://{}{}:{}", if p.proxy_https { "https" } else { "http" }, auth, p.proxy_host, if p.proxy_https { 3129 } else { 3128 })
+        // (no draw) a proxy URL may carry a path, a query or a fragment (a PAC file name, a zone tag): none of
+        // them concerns the client, the authority and the credentials are what they are without
+        let tail = if p.cred.is_some() { ["", "", "/proxy.pac", "/?zone=corp", "/#primary"][(p.status as usize + p.body.len()) % 5] } else { "" };
+        format!("{}://{}{}:{}{}", if p.proxy_https { "https" } else { "http" }, auth, p.proxy_host, if p.proxy_https { 3129 } else { 3128 }, tail)
     };
     let ua_variant = p.status % 2 == 0;
     let out = sim.run(|| {
